@@ -383,7 +383,7 @@ prop('C15',
                  'transforms.')
 
 prop('C16',
-     [rng.r16_1, rng.r16_2, rng.r16_3, rng.r16_4, rng.r16_5, layout.r16_6],
+     [rng.r16_1, rng.r16_2, rng.r16_3, rng.r16_4, rng.r16_5, layout.r16_6, rng.r16_7],
      undecided=['statistical independence of streams from distinct seeds',
                 'bit-level reproducibility of numpy generators'],
      assumptions=COMMON_ASSUME + [
@@ -399,7 +399,7 @@ prop('C16',
 
 prop('C18',
      [inference.r18_1, inference.r18_2, inference.r18_3, inference.r18_4, CUR_INIT,
-      iface.r02_6, layout.r02_4, layout.r13_1, rng.r16_1, rng.r16_5,
+      iface.r02_6, layout.r02_4, layout.r13_1, rng.r16_1, rng.r16_5, rng.r16_7,
       atomic.r11_10],
      undecided=['xarray selection semantics', 'equality of dataset entries '
                 'with the raw chain'],
